@@ -43,4 +43,11 @@ theorem sequencing_as_mirrored :
     Generated.C20.vmExecutorCalls = ["prepare", "BeforeExecute", "Snapshot", "Execute", "RevertToSnapshot", "after", "IntermediateRoot"] ∧
     Generated.C20.vmExecutorAfterCalls = ["Add", "Add", "CheckAndMove", "CheckAndMove"] := by decide
 
+/-- `AddMiner` writes the public-key cache only after its last rejecting return and after the registry
+    write (`pkAfter` in the model: only an accepted application reaches it). -/
+theorem pk_put_is_last : Generated.C20.addMinerPkPutLast = true := by decide
+
+/-- `AddStake` updates `miner.Stake` before the re-activation test reads it (`addStakeApply` decides on the new stake). -/
+theorem addStake_decides_on_new_stake : Generated.C20.addStakeUpdatesStakeBeforeStatusTest = true := by decide
+
 end Rangers.Props.C20Facts
